@@ -14,13 +14,13 @@ SPEC = {
          "eval": "fun c => let '(s, k, g, sc, r) := c in check_c05 s k 300 g sc r", "per_shard": 120},
     ],
     "classes": {1: "uncaught-race", 2: "uncaught-error-drops-sibling-errors"},
-    "n_quick": 70, "n_thorough": 900,
+    "n_quick": 70, "n_thorough": 500,
     "extra_args": [],
     "level": "proof",
     "what_violation": "response data, error multiset or serial mutation order depends on the order in which resolvers complete",
     "rule": ("derive-built schema family with gated data-driven resolvers; fixed corpus of witnesses first, then generated queries and mutations "
              "(aliases, repeated keys, inline and named fragments, lists, failing resolvers at nullable and non-null positions, 0-20% faults); "
-             "a set of <= 5 (thorough 6) gated response paths per tree, biased to siblings; EVERY order of gate openings when there are <= 130 "
+             "a set of <= 5 (thorough 6) gated response paths per tree, biased to siblings; EVERY order of gate openings when there are <= 125 "
              "(thorough 800) of them, random orders otherwise; schema.execute is polled by hand with a no-op waker; one case per (tree, order); "
              "distinct by (document, faults, gates, order); non-trivial = at least one gate opened and a non-empty response"),
     "trusted": ["harness scheduler (manual polling, oneshot gates) and event log of harness/src/family.rs",
@@ -48,5 +48,5 @@ MANIFEST = {
 
 def run(tier, seed, replay=None):
     spec = dict(SPEC)
-    spec["extra_args"] = ["5", "130"] if tier == "quick" else ["6", "800"]
+    spec["extra_args"] = ["5", "125", "1200"] if tier == "quick" else ["6", "800", "40000"]
     return c.run_standard(spec, tier, seed, replay)
